@@ -400,8 +400,11 @@ class PEP(object):
 
         """
 
-        # Create an expression that serve for the objective (min of the performance measures)
-        self.objective = Expression(is_leaf=True)
+        # Create an expression that serve for the objective (min of the performance measures).
+        # It is created once and reused when the PEP is solved again,
+        # so that the number of variables sent to the solver does not grow with the number of solves.
+        if self.objective is None:
+            self.objective = Expression(is_leaf=True)
 
         # Store functions that have class constraints as well as functions that have personal constraints
         list_of_leaf_functions = [function for function in Function.list_of_functions
